@@ -25,7 +25,7 @@ META = dict(
                'The model is tied to the source by running the real class (via its context manager, real asyncio tasks and Events) '
                'and the model on the same schedules and comparing value, queue (ids and weights, in order), holders and body-entry order '
                'after every settle: exhaustive small scope plus seeded random schedules plus LARGE-POPULATION schedules (bursts of 1..300 '
-               '(thorough 1000) simultaneous waiters behind a holder around every power of two, unit/whole-machine/half-machine weights, and '
+               '(thorough 513) simultaneous waiters behind a holder around every power of two, unit/whole-machine/half-machine weights, and '
                'random mixed-weight acquire/release crowds held at 65..300 simultaneous waiters, each drained to the end), so that any bound '
                'on the number of waiters, or behaviour that only appears with long queues, shows up in the tie and in the oracle.',
     level_note='The theorems are about the hand model; the tie to batch/batch/semaphore.py is the correspondence run (sampled), not a '
@@ -221,16 +221,25 @@ def large_schedules(ctx):
     out = []
     # quarter-core jobs behind a whole-machine job on a 16-core worker, around every power of two up to 300 waiters
     for n in ctx.scale([1, 31, 32, 33, 63, 64, 65, 66, 100, 127, 128, 129, 200, 255, 256, 257, 300],
-                       [1, 15, 16, 17, 31, 32, 33, 63, 64, 65, 66, 100, 127, 128, 129, 200, 255, 256, 257, 300, 511, 512, 513, 1000]):
+                       [1, 15, 16, 17, 31, 32, 33, 63, 64, 65, 66, 100, 127, 128, 129, 200, 255, 256, 257, 300, 400, 511, 512, 513]):
         out.append(('large-burst', burst_schedule(n, 16000, 16000, 250, 64)))
     # unit semaphore: each release admits exactly the next waiter
-    for n in ctx.scale([65, 130], [65, 130, 260, 520]):
+    for n in ctx.scale([65, 130], [65, 130, 260, 330]):
         out.append(('large-burst', burst_schedule(n, 1, 1, 1, 1)))
     # whole-machine jobs only; half-machine jobs released two at a time
     out.append(('large-burst', burst_schedule(ctx.scale(70, 300), 16000, 16000, 16000, 1)))
     out.append(('large-burst', burst_schedule(ctx.scale(150, 400), 16000, 8000, 8000, 2)))
     for k in range(ctx.scale(16, 80)):
-        out.append(('large-mixed', crowd_schedule(ctx.rng, ctx.rng.choice([65, 70, 100, 130, 200, 300]))))
+        target = ctx.rng.choice([65, 70, 100, 130, 200, 300])
+        sc = crowd_schedule(ctx.rng, target)
+        while len(sc['acts']) > 1250:           # keep one schedule within what coqc's stack evaluates (see below)
+            target = max(65, target // 2)
+            sc = crowd_schedule(ctx.rng, target)
+        out.append(('large-mixed', sc))
+    # coqc's stack limits one vm_compute'd schedule to ~1500 actions (measured: 1060 fine, 1565 overflows)
+    too_long = [len(s['acts']) for _, s in out if len(s['acts']) > 1300]
+    if too_long:
+        raise RuntimeError(f'C16: large schedule of {too_long} actions exceeds what the model side can evaluate')
     return out
 
 
